@@ -38,7 +38,7 @@ import (
 // (goroutine dump on join time-out), table invariants at quiescence and goroutines
 // that survive Close. The race detector writes its reports to a log the parent reads.
 
-const c09Rule = "scenarios drawn by rapid: a packet loop over 10..60 protocol frames (every C08 frame class, host-tracking churn frames, router advertisements) through Parse -> Process* -> Notify on a reused buffer, a purge goroutine (VerifPurge with advancing time), 1..6 API actors each with 5..40 calls (FindIP, GetHosts + row-locked reads, IPAddrs, FindByMAC, FindMACEntry, PrintTable, Capture, Release, IsCaptured, DHCP offer get/set, ARP/ICMPv6/DHCP StartHunt/StopHunt, IsHunting, MinuteTicker, the handlers' PrintTable, FindRouter, DNSFind/DNSExist), a notification consumer and (1 in 4) a concurrent Close by 1..3 goroutines; drawn pauses (yield / 20 us / 200 us / 2 ms) and GOMAXPROCS 1..16 perturb the schedule; each scenario runs 3 rounds on fresh sessions in a child process built with -race. oracles: race-detector reports (signature = the two innermost library functions), unrecovered runtime faults (concurrent map access), recovered panics, join time-out = deadlock (goroutine dump), C05 invariants once all goroutines have joined and the purge probes are out, no library goroutine left 10 s after Close. non-trivial = at least two actors and a purge overlapped the packet loop (measured in the child); distinct by hash of the scenario"
+const c09Rule = "scenarios drawn by rapid: a packet loop over 10..60 protocol frames (every C08 frame class, host-tracking churn frames, router advertisements) through Parse -> Process* -> Notify on a reused buffer, a purge goroutine (VerifPurge with advancing time), 1..6 API actors each with 5..40 calls (FindIP, GetHosts + row-locked reads, IPAddrs, FindByMAC, FindMACEntry, PrintTable, Capture, Release, IsCaptured, DHCP offer get/set, ARP/ICMPv6/DHCP StartHunt/StopHunt, IsHunting, MinuteTicker, the handlers' PrintTable, FindRouter, DNSFind/DNSExist), a notification consumer and (1 in 4) a concurrent Close by 1..3 goroutines; the DHCP handler keeps a lease file and the frames include steps of real DHCP dialogues (discover / request / renew / decline / release); one round in three starts with a full-channel drill (nobody reads Session.C, 0..3 free slots, packet loop and purge released together 200..1000 times: no sender may block); drawn pauses (yield / 20 us / 200 us / 2 ms) and GOMAXPROCS 1..16 perturb the schedule; each scenario runs 3 rounds on fresh sessions in a child process built with -race. oracles: race-detector reports (signature = the two innermost library functions), unrecovered runtime faults (concurrent map access), recovered panics, join time-out = deadlock (goroutine dump), C05 invariants once all goroutines have joined and the purge probes are out, no library goroutine left 10 s after Close. non-trivial = at least two actors and a purge overlapped the packet loop (measured in the child); distinct by hash of the scenario"
 
 type c09Frame struct {
 	B     drv.Hex `json:"b"`
